@@ -433,8 +433,8 @@ func checkC03(c *Ctx, r *Report) {
 		q := &Cut{Fn: f, Sep: inSet(rms), Target: callPred(RS("doneUnlocked")), EdgeCut: edgeBool(isCallResult(0, "(net/netip.Addr).IsValid"), false)}
 		r4.mustPass(f, m("connectionScope", "Done")+": [valid ip] the slot is returned before the scope is destroyed", q, 1)
 	}
-	r4.onlyIn("call connLimiter.rmConn", callPred(rmConnK), c.FnsOfPkg(rmP), m("connectionScope", "Done"))
-	r4.onlyIn("call connLimiter.addConn", callPred(m("connLimiter", "addConn")), c.FnsOfPkg(rmP), m("resourceManager", "openConnection"))
+	r4.onlyCallers("call connLimiter.rmConn", []string{rmConnK}, c.FnsOfPkg(rmP), m("connectionScope", "Done"))
+	r4.onlyCallers("call connLimiter.addConn", []string{m("connLimiter", "addConn")}, c.FnsOfPkg(rmP), m("resourceManager", "openConnection"))
 	if f := r4.need(m("resourceManager", "openConnection")); f != nil {
 		adds := findInstrs(f, callPred(m("connLimiter", "addConn")))
 		r4.guard(f, "connLimiter.addConn", adds, "ip.IsValid()", edgeBool(isCallResult(0, "(net/netip.Addr).IsValid"), true), nil)
